@@ -245,8 +245,19 @@ func (e *pathEngine) walkInstrs(fr *Frame, b *ssa.BasicBlock, idx int, en *env, 
 				if cv, ok := e.evalCond(Val{x.Cond, fr, en}); ok && cv != pol {
 					continue
 				}
+				// prune a branch that contradicts an atom already taken on this path for the same value instance
+				en2 := en
+				if key, truth, ok := e.atomKey(Val{x.Cond, fr, en}, pol); ok {
+					if prev, found := en.lookup(key); found {
+						if prev.(bool) != truth {
+							continue
+						}
+					} else {
+						en2 = &env{key, truth, en}
+					}
+				}
 				e.atoms = append(e.atoms, Atom{Cond: Val{x.Cond, fr, en}, Pol: pol, If: x})
-				e.walkBlock(fr, b, succ, en, k)
+				e.walkBlock(fr, b, succ, en2, k)
 				e.atoms = e.atoms[:len(e.atoms)-1]
 			}
 			return
@@ -635,4 +646,54 @@ func (e *pathEngine) evalCond(v Val) (bool, bool) {
 		return x >= y, true
 	}
 	return false, false
+}
+
+// atomKey canonicalises a branch condition on the current path: "value instance == nil" or
+// "boolean value instance", so that a later test of the very same value instance (e.g. an error
+// returned by an inlined helper and re-tested by its caller) cannot take the opposite branch.
+type atomKeyT struct {
+	v     ssa.Value
+	f     *Frame
+	visit int
+	kind  string
+}
+
+func (e *pathEngine) atomKey(c Val, pol bool) (atomKeyT, bool, bool) {
+	r := e.resolve(c)
+	for {
+		if u, ok := r.V.(*ssa.UnOp); ok && u.Op == token.NOT {
+			r = e.resolve(Val{u.X, r.F, r.E})
+			pol = !pol
+			continue
+		}
+		break
+	}
+	inst := func(v Val) (atomKeyT, bool) {
+		in, ok := v.V.(ssa.Instruction)
+		if !ok || v.F == nil || in.Block() == nil {
+			return atomKeyT{}, false
+		}
+		return atomKeyT{v: v.V, f: v.F, visit: v.F.visits[in.Block().Index]}, true
+	}
+	if bin, ok := r.V.(*ssa.BinOp); ok && (bin.Op == token.EQL || bin.Op == token.NEQ) {
+		x, y := e.resolve(Val{bin.X, r.F, r.E}), e.resolve(Val{bin.Y, r.F, r.E})
+		if isNilConst(x.V) {
+			x, y = y, x
+		}
+		if isNilConst(y.V) {
+			if k, ok := inst(x); ok {
+				k.kind = "nil"
+				return k, (bin.Op == token.EQL) == pol, true
+			}
+		}
+		return atomKeyT{}, false, false
+	}
+	if _, isBin := r.V.(*ssa.BinOp); isBin {
+		return atomKeyT{}, false, false
+	}
+	if k, ok := inst(r); ok {
+		k.kind = "bool"
+		return k, pol, true
+	}
+	return atomKeyT{}, false, false
 }
